@@ -12,6 +12,8 @@ Structural clauses on value/ops.rs (and the integer conversions it relies on):
  N5 sign discipline of unary minus: every value `neg` returns is the result of a negation (float Neg, checked_mul by
     -1, checked_neg) — never the operand itself or a non-negative constant.
 """
+import re
+
 from .. import cfg, flow, errflow, query, arms
 from ..facts import op_place, const_int
 
@@ -93,6 +95,47 @@ def is_roundtrip(f, binrv, roots):
     return False
 
 
+def check_narrow(ctx, prog, fns, tag):
+    """N6: the width an operand is stored in never decides the outcome.  Inside the operator functions any arithmetic
+    helper on a type narrower than 128 bits may only be a fast path: wrapping / saturating / overflowing forms are
+    never acceptable, and the None of a narrow checked_* must fall through to the 128-bit computation (coerce +
+    i128::checked_*), never straight to an error."""
+    for op, f in fns:
+        scope = [f] + prog.closures_of(f.path)
+        wide = {c.bb for c in f.calls() if c.name.startswith("core::num::<impl i128>::checked_")
+                or c.name == "minijinja::value::ops::coerce"}
+        for g in scope:
+            for c in g.calls():
+                mm = re.match(r"core::num::<impl ([iu])(8|16|32|64)>::(\w+)$", c.name)
+                if not mm:
+                    continue
+                meth = mm.group(3)
+                if not meth.startswith(("checked_", "wrapping_", "saturating_", "overflowing_", "unchecked_")) and meth not in (
+                        "pow", "abs", "rem_euclid", "div_euclid"):
+                    continue
+                key = "%s%s|%s%s::%s" % (tag, op, mm.group(1), mm.group(2), meth)
+                if not meth.startswith("checked_"):
+                    ctx.ob("C08.N6.narrow-arithmetic-is-only-a-fast-path", key, False,
+                           "`%s` computes with %s%s::%s: a result that does not fit 64 bits wraps, saturates or "
+                           "panics although it fits 128 bits" % (op, mm.group(1), mm.group(2), meth), g.where(c.bb))
+                    continue
+                ok = False
+                why = "the None of the narrow operation is turned into an error"
+                if g is f and c.dest is not None and "p" not in c.dest:
+                    sp = errflow.result_split(f, c.dest["l"])
+                    starts = set()
+                    for (sb, none_t, some_t, other, adt) in sp.switches:
+                        starts |= set(none_t or {other})
+                    if starts and wide:
+                        ok = all(cfg.paths_must_pass(f, st_, wide, f.returns()) for st_ in starts)
+                    elif not sp.switches:
+                        why = "the Option of the narrow operation is consumed by %s" % [k.name.split("::")[-1] for k in sp.consumers]
+                ctx.ob("C08.N6.narrow-arithmetic-is-only-a-fast-path", key, ok,
+                       "`%s` uses %s%s::%s and %s instead of falling through to the 128-bit computation: "
+                       "`i64::MIN // -1` fails for 64-bit operands but succeeds for the same numbers stored wider"
+                       % (op, mm.group(1), mm.group(2), meth, why), g.where(c.bb))
+
+
 def run(ctx):
     ctx.explain("C08: frozen operator table checked against the MIR of value/ops.rs (integer arm -> i128::checked_* "
                 "with None -> Err; float arms of // and % both euclidean), a lossy-cast lint with the round-trip "
@@ -156,6 +199,8 @@ def run(ctx):
             ctx.ob("C08.N1.float-arm-operator", "%s%s" % (tag, op), sorted(got) == list(fw),
                    "float arm of `%s` computes with %s, expected %s (`//` and `%%` must both be euclidean so that "
                    "(a // b) * b + a %% b == a)" % (op, sorted(got), list(fw)), f.loc)
+        # ---- N6
+        check_narrow(ctx, prog, [(op, prog.fn(OPS + op)) for op in list(INT_TABLE) + ["neg", "div"] if prog.has_fn(OPS + op)], tag)
         # int_div: explicit zero check before checked_div_euclid is fine either way (checked returns None on 0)
         # ---- N5 + neg table
         ng = prog.fn(OPS + "neg")
@@ -275,3 +320,8 @@ def run(ctx):
                 ctx.ob("C08.N4.no-lossy-cast-of-literal", "%seat_number|%s as %s" % (tag, rv["from"], rv["to"]), False,
                        "", en.where(bb))
     ctx.sample({"operator table": {k: list(v) for k, v in INT_TABLE.items()}, "float": {k: list(v) for k, v in FLOAT_TABLE.items()}})
+    # positive control for the zero-count rule N6
+    cprog = ctx.controls
+    sub = type(ctx)(ctx.prop, ctx.tier, ctx.repo)
+    check_narrow(sub, cprog, [("rem", cprog.fn("mjsa_controls::c08::rem"))], "control:")
+    ctx.control("C08.N6", any(not o[2] for o in sub.obligations))
